@@ -732,6 +732,11 @@ func (c *Context) Ln(d, x *Decimal) (Condition, error) {
 
 	nc := c.WithPrecision(p)
 	nc.Rounding = RoundHalfEven
+	// The intermediate values are not results, so the caller's exponent range
+	// must not apply to them: under a tight range they turn subnormal, lose
+	// their digits and the iteration below stops converging.
+	nc.MinExponent = MinExponent
+	nc.MaxExponent = MaxExponent
 	ed := MakeErrDecimal(nc)
 
 	var tmp1, tmp2, tmp3, tmp4, z, resAdjust Decimal
